@@ -65,7 +65,11 @@ def decodeRect : Dec RectM := do
 def encodeCellID (ci : UInt64) : Bytes := writeUint64 ci
 def decodeCellID : Dec UInt64 := readUint64
 def encodeCell (id : UInt64) : Bytes := encodeCellID id
-def decodeCell : Dec UInt64 := decodeCellID
+/-- `Cell.decode`: the id must be a valid cell id (checked since the repair of D25), otherwise an error. -/
+def decodeCell : Dec UInt64 := fun bs =>
+  match decodeCellID bs with
+  | some (id, rest) => if S2.CellID.isValid id then some (id, rest) else none
+  | none => none
 
 /-! ### CellUnion -/
 
